@@ -359,8 +359,48 @@ def doc_has_call_in_ccall_args(doc):
     return bool(found)
 
 
+# ------------------------------------------------------------------ directed: what `caller` is, and for whom
+CALLER_SCENARIOS = [
+    # (name, template, expected output, finding id when the known quirk output is seen, quirk output)
+    ("plain-call-has-no-caller", '<%def name="g()">[g:${"C1" if caller else "C0"}]</%def>${g()}', "[g:C0]", None, None),
+    ("callee-has-caller", '<%def name="f()">[f:${"C1" if caller else "C0"}|${caller.body()}]</%def><%call expr="f()">B</%call>', "[f:C1|B]", None, None),
+    ("caller-restored-after-call", '<%def name="f()">${caller.body()}</%def><%def name="g()">[g:${"C1" if caller else "C0"}]</%def>'
+                                   '<%call expr="f()">B</%call>${g()}', "B[g:C0]", None, None),
+    ("def-called-from-callee-has-no-caller", '<%def name="g()">[g:${"C1" if caller else "C0"}]</%def><%def name="f()">${g()}${caller.body()}</%def>'
+                                             '<%call expr="f()">B</%call>', "[g:C0]B", None, None),
+    ("def-called-from-call-body-has-no-caller", '<%def name="g()">[g:${"C1" if caller else "C0"}]</%def><%def name="f()">${caller.body()}</%def>'
+                                                '<%call expr="f()">${g()}</%call>', "[g:C0]", None, None),
+    # the callee is f; g is merely evaluated to produce f's argument and was not called with content
+    ("def-in-call-arguments", '<%def name="g()">[g:${"C1" if caller else "C0"}]</%def><%def name="f(a)">[f:${a}|${caller.body()}]</%def>'
+                              '<%call expr="f(g())">B</%call>', "[g:C0][f:|B]", "C05/def-in-call-arguments-sees-caller", "[g:C1][f:|B]"),
+    ("buffered-def-in-call-arguments", '<%def name="g()" buffered="True">[g:${"C1" if caller else "C0"}]</%def><%def name="f(a)">[f:${a}|${caller.body()}]</%def>'
+                                       '<%call expr="f(a=g())">B</%call>', "[f:[g:C0]|B]", "C05/def-in-call-arguments-sees-caller", "[f:[g:C1]|B]"),
+    ("def-in-ns-call-attribute", '<%def name="g()" buffered="True">[g:${"C1" if caller else "C0"}]</%def><%def name="f(a)">[f:${a}|${caller.body()}]</%def>'
+                                 '<%self:f a="${g()}">B</%self:f>', "[f:[g:C0]|B]", "C05/def-in-call-arguments-sees-caller", "[f:[g:C1]|B]"),
+    ("body-taking-def-in-call-arguments", '<%def name="g()" buffered="True">[g:${caller.body() if caller else "nobody"}]</%def><%def name="f(a)">[f:${a}|${caller.body()}]</%def>'
+                                          '<%call expr="f(g())">B</%call>', "[f:[g:nobody]|B]", "C05/def-in-call-arguments-sees-caller", "[f:[g:B]|B]"),
+]
+
+
+def run_caller_scenarios(res):
+    T = _st["Template"]
+    for name, text, exp, fid, quirk in CALLER_SCENARIOS:
+        res.evaluations += 1
+        res.count("caller_scenarios")
+        try:
+            got = T(text).render_unicode()
+        except Exception as e:
+            got = "%s: %s" % (type(e).__name__, e)
+        if got != exp:
+            res.violate("caller-for-whom-" + name, "template %r rendered %r, expected %r" % (text, got, exp),
+                        finding=fid if got == quirk else None,
+                        witness='<%call expr="f(g())">B</%call>: g, called to produce f\'s argument, already sees the caller meant for f (C1 / caller.body() gives B)')
+        res.nontrivial("caller-scenario", name)
+
+
 def gen_cases(tier, seed):
     yield {"kind": "suite"}
+    yield {"kind": "caller-scenarios"}
     n = 8000 if tier == "quick" else 80000
     per = 50
     for i in range(n // per):
@@ -387,6 +427,8 @@ def run_case(case):
             res.count("suite_frames_checked", rep["frames"])
             for p in rep["render_problems"]:
                 res.violate("suite-render-state-unbalanced", "while the repository's own tests ran: %s" % p)
+    elif case["kind"] == "caller-scenarios":
+        run_caller_scenarios(res)
     elif case["kind"] == "doc":
         run_doc(fix(case["doc"]), res, case, case["bf"])
     return res
